@@ -266,9 +266,41 @@ def run_mp_vector(i, v):
     return line
 
 
+def run_enc_vector(i, v):
+    """construct-only families (SR policy in a tunnel encapsulation attribute, PMSI tunnel, SR policy NLRI, IPv6 flowspec):
+    build the UPDATE with the real encoder; TLC's walker judges what comes out (C08)"""
+    u = v['u']
+    if v['sub'] == 'srpol':
+        cls = 'srpol-%s-l%d-s%s' % (u['enc'], len(u['lists']), '.'.join(str(len(sl['segs'])) for sl in u['lists']))
+    elif v['sub'] == 'pmsi':
+        cls = 'pmsi-t%d-id%d' % (u['ttype'], len(u['id']))
+    elif v['sub'] == 'srte':
+        cls = 'srte-afi%d-nh%d-ep%d' % (u['afi'], len(u['nh']), len(u['ep']))
+    else:
+        cls = 'fs6-' + ','.join('c' + '.'.join(str(c[0]) + ('p%d.%d' % (c[1][0], c[1][1]) if c[0] in (1, 2) else 'x%d' % len(c[1])) for c in r) for r in u['rules'])
+    line = {'id': i, 'kind': 'enc', 'cls': cls[:80], 'asn4': True, 'ref': list(v['b']), 'impl': [], 'raised': False, 'none': False,
+            'rt_ok': False, 'dec_ok': False, 'dec_err': False, 'diff': '', 'ddiff': ''}
+    try:
+        attr, nlri = M.enc_input(v)
+        impl = Update.construct({'attr': attr, 'nlri': nlri}, True)
+    except Exception as e:
+        line['raised'] = True
+        line['diff'] = 'construct raised %r' % (e,)
+        return line
+    if not impl:
+        line['none'] = True
+        return line
+    line['impl'] = list(impl)
+    if bytes(impl) != bytes(v['b']):
+        line['diff'] = 'octets differ from the reference encoding'
+    return line
+
+
 def run_vector(i, v):
     if v['kind'] == 'mp':
         return run_mp_vector(i, v)
+    if v['kind'] == 'enc':
+        return run_enc_vector(i, v)
     if v['kind'] == 'updap':
         return run_addpath_vector(i, v)
     if v['kind'] in ('upd', 'updvar', 'cor'):
